@@ -258,7 +258,7 @@ class Check:
         except subprocess.TimeoutExpired:
             raise InfraError("harness %s timed out after %ds" % (args, timeout))
         if p.returncode != 0:
-            raise InfraError("harness %s exit %d:\n%s" % (args, p.returncode, p.stderr[-4000:]))
+            raise InfraError("harness %s exit %d:\n%s\n...\n%s" % (args, p.returncode, p.stderr[:1500], p.stderr[-2500:]))
         out = []
         for line in p.stdout.splitlines():
             line = line.strip()
@@ -288,9 +288,49 @@ class Check:
         self.build_harness()
         chunks = [cases[i::procs] for i in range(procs)]
         chunks = [c for c in chunks if c]
+        def run(ch):
+            try:
+                return self.harness(args + ["-workers", "1"], ch, timeout=timeout)
+            except InfraError as e:
+                if "exit" not in str(e) or "timed out" in str(e):
+                    raise
+                return self._chunk_with_deaths(args + ["-workers", "1"], ch, timeout)
         with concurrent.futures.ThreadPoolExecutor(max_workers=len(chunks)) as ex:
-            outs = list(ex.map(lambda ch: self.harness(args + ["-workers", "1"], ch, timeout=timeout), chunks))
+            outs = list(ex.map(run, chunks))
         return [v for o in outs for v in o]
+
+    def _chunk_with_deaths(self, args, cases, timeout):
+        """A harness process died while running `cases` (a fatal error of the Go runtime cannot be recovered:
+        stack overflow, concurrent map access).  Re-run them, restarting after every death; the case being run
+        when the process dies gets the verdict "crash"."""
+        binp = self.build_harness()
+        pending, verdicts, deaths = list(cases), [], 0
+        while pending:
+            inp = "".join(json.dumps(c, ensure_ascii=False) + "\n" for c in pending)
+            p = subprocess.run([binp] + args, input=inp, capture_output=True, text=True, timeout=timeout, cwd=self.scratch)
+            done = []
+            for line in p.stdout.splitlines():
+                try:
+                    done.append(json.loads(line))
+                except Exception:
+                    pass
+            verdicts += done
+            if p.returncode == 0 and len(done) == len(pending):
+                break
+            if len(done) >= len(pending):
+                raise InfraError("harness died after finishing its cases: %s" % p.stderr[:1000])
+            culprit = pending[len(done)]
+            m = re.search(r"^(fatal error|panic): (.*)$", p.stderr, re.M)
+            why = m.group(2)[:120] if m else "unknown"
+            verdicts.append({"id": culprit["id"], "verdict": "crash", "class": "crash",
+                             "key": "crash:%s:%s" % (why.replace(" ", "-"), culprit.get("tag") or culprit.get("kind")),
+                             "note": "the process running this case was killed by the Go runtime: %s" % why})
+            pending = pending[len(done) + 1:]
+            deaths += 1
+            if deaths > 30:
+                raise InfraError("more than 30 process deaths in one chunk; last: %s" % p.stderr[:1000])
+        self.extra["process_deaths"] = self.extra.get("process_deaths", 0) + deaths
+        return verdicts
 
     def replay(self, cases, args=None, race=False, timeout=1800, double_check=True, env=None, procs=0):
         """Direction A: run cases on the real code; handle verdicts."""
